@@ -40,6 +40,7 @@ type vrConn struct {
 	out     int // bytes Outputs offers (0: nothing to send)
 	op      *FDOperator
 	hups    int
+	outs    int  // Outputs calls (writability reported)
 	gone    bool // peer closed / reset / shut down
 	badData bool
 }
@@ -93,6 +94,12 @@ func (v *vrPoll) handle(events []epollevent) bool {
 	for i := range events {
 		op := p.getOperator(0, unsafe.Pointer(&events[i].data))
 		ops[i] = op
+		if op == nil {
+			// an entry that names no operator (never produced by the kernel for this poll: the array handed to the handler is
+			// not the one epoll_wait filled): logged as it is, the handler skips it
+			evs[i] = &vpEv{id: i, evt: events[i].events, ds: "unknown", cap: vpCap, ol: vpSmall}
+			continue
+		}
 		e := &vpEv{id: i, evt: events[i].events, st: atomic.LoadInt32(&op.state), det: atomic.LoadInt32(&op.detached), cap: vpCap, ol: vpSmall}
 		if op == p.wop {
 			e.kind = "K"
@@ -170,6 +177,14 @@ func (v *vrPoll) handle(events []epollevent) bool {
 		regset = vpRegistered(epFD)
 	}
 	for i, e := range evs {
+		if ops[i] == nil {
+			st = append(st, fmt.Sprintf("%d:0/0", e.id))
+			if regset != nil {
+				reg = append(reg, fmt.Sprintf("%d:0", e.id))
+			}
+			got = append(got, fmt.Sprintf("%d:0", e.id))
+			continue
+		}
 		st = append(st, fmt.Sprintf("%d:%d/%d", e.id, atomic.LoadInt32(&ops[i].state), atomic.LoadInt32(&ops[i].detached)))
 		if regset != nil {
 			r := 0
@@ -245,6 +260,7 @@ func (v *vrPoll) newConn(id int, tcp bool, capv int) (*vrConn, error) {
 	out := make([]byte, 1<<16)
 	op.Outputs = func(vs [][]byte) ([][]byte, bool) {
 		rec.add(id, "O", 0, false, tok())
+		c.outs++
 		if c.out == 0 {
 			return vs[:0], false
 		}
@@ -332,7 +348,11 @@ func (v *vrPoll) register(c *vrConn) error {
 
 // quiesce: wait until the loop has handled what there is to handle (no new batch for a while)
 func (v *vrPoll) quiesce(minBatches int64, until func() bool) bool {
-	dl := time.Now().Add(30 * time.Second)
+	return v.quiesceFor(30*time.Second, minBatches, until)
+}
+
+func (v *vrPoll) quiesceFor(d time.Duration, minBatches int64, until func() bool) bool {
+	dl := time.Now().Add(d)
 	if len(v.bad) > 0 {
 		dl = time.Now().Add(time.Second) // this round has failed already: do not wait long again
 	}
@@ -526,9 +546,26 @@ func vrRun(seed int64, growth bool, ow, iw *bufio.Writer) (ok bool) {
 		}
 	}
 
-	// --- growth rule: 128 events in one wake-up double the event array
+	// --- growth rule: a wake-up that fills the event array (128 events) doubles it for the NEXT fetch, and the full batch itself
+	// is dispatched completely.  The batch holds level-triggered connections with 2 bytes each and, at its head (they become
+	// ready first), EDGE-triggered registrations (PollWritable, what the dialer uses): writable edges of descriptors registered
+	// while the loop is held at the gate, and the hang-up of one registered earlier whose peer closes now.  The kernel reports an
+	// edge once: an event of that batch that is not dispatched is never seen again.
 	if growth {
+		// H: registered edge-triggered now (its first writable edge is consumed before the gate closes)
+		v.mu.Lock()
+		hc, herr := v.newConn(900, false, 8)
+		if herr == nil {
+			v.p.Control(hc.op, PollWritable)
+		}
+		v.mu.Unlock()
+		if herr == nil {
+			v.quiesceFor(5*time.Second, 0, func() bool { v.mu.Lock(); defer v.mu.Unlock(); return hc.outs > 0 })
+		} else {
+			v.fail("growth conn: " + herr.Error())
+		}
 		gate := make(chan struct{})
+		atomic.StoreInt32(&v.atGate, 0)
 		v.gate = gate
 		v.mu.Lock()
 		p.Trigger() // the loop wakes up and waits at the gate
@@ -539,8 +576,27 @@ func vrRun(seed int64, growth bool, ow, iw *bufio.Writer) (ok bool) {
 		if atomic.LoadInt32(&v.atGate) == 0 {
 			v.fail("growth: Trigger did not bring the loop to the gate")
 		}
-		var extra []*vrConn
-		for i := 0; i < 131; i++ {
+		if hc != nil {
+			v.act(hc, "c") // RDHUP|HUP edge
+		}
+		var extra, edge []*vrConn
+		nedge := 1 + r.Intn(3)
+		for i := 0; i < nedge; i++ {
+			c, err := v.newConn(910+i, false, 8)
+			if err != nil {
+				v.fail("growth conn: " + err.Error())
+				break
+			}
+			v.p.Control(c.op, PollWritable) // writable at once: the edge is queued now
+			edge = append(edge, c)
+		}
+		// ready descriptors in all: exactly the array size, or a few more (the first fetch is full either way)
+		total := []int{128, 128, 129, 131}[r.Intn(4)]
+		nlt := total - len(edge)
+		if hc != nil {
+			nlt--
+		}
+		for i := 0; i < nlt; i++ {
 			c, err := v.newConn(1000+i, false, 8)
 			if err != nil {
 				v.fail("growth conn: " + err.Error())
@@ -564,6 +620,18 @@ func vrRun(seed int64, growth bool, ow, iw *bufio.Writer) (ok bool) {
 			}
 			return true
 		})
+		// the level-triggered connections have all been served, so the loop is past the full batch: whatever the edge-triggered
+		// ones were going to get they have got (a little patience for the hang-up goroutine)
+		v.quiesceFor(2*time.Second, 0, func() bool {
+			v.mu.Lock()
+			defer v.mu.Unlock()
+			for _, c := range edge {
+				if c.outs == 0 {
+					return false
+				}
+			}
+			return hc == nil || hc.hups > 0
+		})
 		v.mu.Lock()
 		if p.size != 256 {
 			v.fail(fmt.Sprintf("growth: event array size %d after a full batch, want 256 (batches n/size: %s)", p.size, strings.Join(v.sizes, " ")))
@@ -574,8 +642,22 @@ func vrRun(seed int64, growth bool, ow, iw *bufio.Writer) (ok bool) {
 				break
 			}
 		}
+		for _, c := range edge {
+			if c.outs != 1 {
+				v.fail(fmt.Sprintf("growth: conn%d (edge-triggered, writable edge in the full batch): writability reported %d times, want 1 (batches n/size: %s)", c.id, c.outs, strings.Join(v.sizes, " ")))
+				break
+			}
+		}
+		if hc != nil {
+			if hc.hups != 1 {
+				v.fail(fmt.Sprintf("growth: conn%d (edge-triggered, peer closed, hang-up edge in the full batch): hang-up reported %d times, want 1 (batches n/size: %s)", hc.id, hc.hups, strings.Join(v.sizes, " ")))
+			} else if vpRegistered(epFD)[hc.d.a] {
+				v.fail(fmt.Sprintf("growth: conn%d still registered after its hang-up", hc.id))
+			}
+			runs = append(runs, &run{c: hc})
+		}
 		v.mu.Unlock()
-		for _, c := range extra {
+		for _, c := range append(extra, edge...) {
 			runs = append(runs, &run{c: c})
 		}
 	}
